@@ -9,7 +9,7 @@ from harness import family
 from harness.drivers import shampoo_props as sp
 from harness.drivers.C01 import plumbing_task
 
-OWN = re.compile(r"basis_|\.value\.|\.shape\.|trace\.(rootAt|calls|refresh|raised)$|spec\.(BasisUse|RefreshTiming|RefreshComplete)|own_buffer_updated|dtype_plumbing")
+OWN = re.compile(r"basis_|\.value\.|\.shape\.|trace\.(rootAt|calls|refresh|raised)$|spec\.(BasisUse|RefreshTiming|RefreshComplete)|own_buffer_updated|root_changed_without|computed_root_not_stored|dtype_plumbing")
 
 
 def owns(clause, p=None):
